@@ -62,6 +62,7 @@ type Ctx struct {
 	start  time.Time
 	maxSamples int
 	maxFailures int
+	nJudge, nDiff int
 }
 
 // Main parses the common flags and runs the property harness.
@@ -155,11 +156,32 @@ func (c *Ctx) AddSample(v interface{}) {
 func (c *Ctx) Fail(f Failure) {
 	c.mu.Lock()
 	defer c.mu.Unlock()
-	if len(c.res.Failures) < c.maxFailures {
-		c.res.Failures = append(c.res.Failures, f)
+	if f.Kind == "judge" {
+		c.nJudge++
+		if c.nJudge <= c.maxFailures/2 {
+			c.res.Failures = append(c.res.Failures, f)
+		}
+	} else {
+		c.nDiff++
+		if c.nDiff <= c.maxFailures/2 {
+			c.res.Failures = append(c.res.Failures, f)
+		}
 	}
 }
-func (c *Ctx) NFailures() int { c.mu.Lock(); defer c.mu.Unlock(); return len(c.res.Failures) }
+
+// NFailures counts every failure reported so far (recorded or not).
+func (c *Ctx) NFailures() int { c.mu.Lock(); defer c.mu.Unlock(); return c.nJudge + c.nDiff }
+
+// NJudgeFailures counts property violations seen on the implementation.
+func (c *Ctx) NJudgeFailures() int { c.mu.Lock(); defer c.mu.Unlock(); return c.nJudge }
+
+// Stop tells a generation loop to stop: enough property violations were found (3), or so many model/implementation
+// differences (5000) that going on is pointless. A difference alone does not stop the search for a failing input.
+func (c *Ctx) Stop() bool {
+	c.mu.Lock()
+	defer c.mu.Unlock()
+	return c.nJudge >= 3 || c.nDiff >= 5000
+}
 
 // Model sends one request to the Lean driver and decodes the reply into out (if non-nil).
 // The reply is {"ok":...} or {"err":"..."}; an "err" reply is returned as *ModelErr.
